@@ -1,4 +1,7 @@
 """C17 - presence registration never touches nodes owned by another session."""
+import shutil
+import tempfile
+
 from ..zkproto import scenario as _scenario
 from ..zkproto import world as _world
 
@@ -56,11 +59,11 @@ REQUIRED_REACH = {'*': [
 ]}
 
 
-def run_case(rng, tier, count, script=None, scn=None):
+def run_case(rng, tier, count, script=None, scn=None, base=None):
     """Build and run one case; returns the closed world."""
     if scn is None:
         scn = _scenario.generate(rng, tier)
-    w = _world.World(rng, scn, count, script=script)
+    w = _world.World(rng, scn, count, script=script, base=base)
     try:
         w.run()
     finally:
@@ -69,6 +72,14 @@ def run_case(rng, tier, count, script=None, scn=None):
 
 
 def run(ctx):
+    base = tempfile.mkdtemp(prefix='vf-')
+    try:
+        _run(ctx, base)
+    finally:
+        shutil.rmtree(base, ignore_errors=True)
+
+
+def _run(ctx, base):
     for idx, rng in ctx.cases():
         local = {}
 
@@ -76,7 +87,7 @@ def run(ctx):
             _l[name] = _l.get(name, 0) + n
             ctx.count(name, n)
 
-        w = run_case(rng, ctx.tier, count)
+        w = run_case(rng, ctx.tier, count, base=base)
         desc = _scenario.describe(w.scn)
         ctx.count('interleavings')
         ctx.count('shape:' + w.scn['shape'])
